@@ -12,8 +12,9 @@ RULE = ("128-bit ints: boundaries 0,1,57^k-1,57^k,57^k+1 (k<=21), 2^128-1, 2^j, 
         "collected for a collision test. Strings: wrong lengths 0-40, one foreign character at "
         "every position of a valid short string, 22-character strings denoting 2^128..57^22-1, "
         "canonical forms (braces, urn:, upper case, no hyphens), valid short strings with one junk character "
-        "(newline, blank, NUL, ...) in front of / behind them; plus 4 threads x 1500 round trips at a 1 microsecond "
-        "switch interval. Non-trivial = boundary value, "
+        "(newline, blank, NUL, ...) in front of / behind them; plus 4 threads x 600 round trips at a 1 microsecond "
+        "switch interval with sys.monitoring LINE events inside the functions of ak.short_uuid giving the GIL away "
+        "(sleep(0), probability 1/4). Non-trivial = boundary value, "
         "value needing padding, overflow string, or foreign character case; distinct by "
         "(class, value).")
 ASSUMPTIONS = ["uuid.UUID of the standard library decides which strings are canonical forms",
